@@ -3,7 +3,8 @@
    and terminates is C04; the exit status is decided by main.rs from the verdict, see Cli.wellformed_exit, and is checked on the
    real binary by the correspondence run). *)
 From Coq Require Import List ZArith Lia Bool Arith.
-Require Import HP1 Cao1 Cao5 Cao6 Rooms Spec Valid Node NoPanic WfCheck RoomThms RoomSites WfPres Solve NoOverflow Terminate.
+Require Import HP1 Cao1 Cao5 Cao6 Rooms Spec Valid Node NoPanic WfCheck RoomThms RoomSites WfPres Solve NoOverflow Terminate Prealloc.
+From Coq Require NArith.
 Require EngP2.
 Require Json SimpleRead SimpleValid CdeValid.
 Import ListNotations.
@@ -192,12 +193,31 @@ Theorem C10_never_hangs : forall courses parts esize shrinkf rooms, Valid course
     if b then Mf k st' + 1 <= Mf k st else Mf k st' = Mf k st + 3.
 Proof. exact search_terminates. Qed.
 
+(* panic site 11 (found as defect D15, fixed by f71c4f2): `Vec::with_capacity(binom(upper_bound - lower_bound, k))` in
+   check_room_feasibility.  With the machine arithmetic of util::binom (SelModel.binom64: usize, 128-bit product, saturation; None = an
+   arithmetic overflow) the call never overflows and requests at most C(17,8) = 24310 elements, for every instance whose number of courses
+   fits a usize, every room list and every assignment: the range of the selections has at most MAX_N courses or consists of exactly the k
+   courses that all have to shrink.  (prealloc_capacity re-computes the range with the let-bindings of Rooms.room_sets, word for word;
+   C10_prealloc_reached: whenever the room stage yields constraint sets it went through that range.) *)
+Theorem C10_prealloc : forall courses esize rooms a, (N.of_nat (nc courses) < 18446744073709551616)%N ->
+  match prealloc_capacity courses esize rooms a with
+  | Some None => False
+  | Some (Some cap) => (cap <= 24310)%N
+  | None => True end.
+Proof. exact prealloc_small. Qed.
+Theorem C10_prealloc_reached : forall courses esize shrinkf rooms nd a sets,
+  room_sets courses esize shrinkf rooms nd a = Val (Some sets) -> exists w, room_window courses esize rooms a = Some w.
+Proof. exact room_sets_window. Qed.
+
+Check C10_prealloc. Check C10_prealloc_reached.
 Check C10_never_hangs. Check C10_fixed_node. Check C10_fixed_total. Check C10_fixed_answered. Check C10_node_total. Check C10_total. Check C10_size_checker. Check C10_document_valid. Check C10_document_node. Check C10_float_sane_checker. Check C10_node. Check C10_node_class. Check C10_root_wf. Check C10_children_wf. Check C10_search. Check C10_no_failure. Check C10_never_stuck. Check C10_node_noroom.
 Print Assumptions C10_node.
 Print Assumptions C10_node_total.
 Print Assumptions C10_total.
 Print Assumptions C10_fixed_node.
 Print Assumptions C10_never_hangs.
+Print Assumptions C10_prealloc.
+Print Assumptions C10_prealloc_reached.
 Print Assumptions C10_fixed_total.
 Print Assumptions C10_fixed_answered.
 Print Assumptions C10_document_total.
